@@ -8,6 +8,12 @@ VERIF = os.path.dirname(os.path.dirname(os.path.abspath(__file__)))
 
 E1 = "E1 deviation-bounded exploration of environment answers"
 CHECKS = {
+    "C01": dict(engine="E4 (E1, zero deviations)", level="exploration", technique="bounded-exhaustive enumeration of identifier lists / key types / digests / kp_reuse / subject-attribute subsets through full issuances against a strict CA with an independent DER walker",
+                text="Every ordered selection of 1..2 (quick) / 1..3 (thorough) of 13 identifier shapes plus two 8-entry lists, 7 key types x 3 digests x 4 kp_reuse situations, every subject attribute alone / none / all through the real flow, and every subset of the 15 attributes (32 768 in thorough) on the real CSR builder. The CA compares newOrder and the CSR (own DER parser, OpenSSL self-signature check) with literal expected canonical forms; the key file is compared with the CSR key after success.",
+                note="Dimensions are explored as a sum, not a product (they reach the CSR builder as independent arguments). Expected canonical forms are literals in vlib/props/c01.py.", ref="4/C01"),
+    "C02": dict(engine="E3+E1", level="model_checking", technique="explicit enumeration of all write histories per file type through the real storage functions + issuance histories with varying chain/key lengths",
+                text="All write histories of depth 3 (quick) / 4 (thorough) over four contents of different lengths per file type, from {absent, empty, longer garbage}: after every write, read at the moment the storage function returns, the file equals what was written (accounts: length of a fresh save + load-back equality). 1..3 consecutive issuances with chain lengths {1..4}^k and alternating key types into the same two paths: certificate file = served body, key file = CSR key.",
+                note="Files are real files in a tmpfs scratch directory; account byte equality is not demanded (HashMap order).", ref="4/C02"),
     "C03": dict(engine="E1", level="model_checking", technique="stateless exhaustive exploration of CA fault answers (deviation-bounded), real daemon loop under a controlled environment",
                 text="Every single CA/network fault (full alphabet per request kind) at every request position of an issuance, with and without an installed pair and kp_reuse; thorough: every pair of faults over a reduced alphabet and every triple over {badNonce, cut}. The file-state oracle is evaluated at every attempt end and after the loop is dropped. Right level: the property quantifies over fault sequences of one short request history, which is finite once the alphabet is fixed.",
                 note="Trusted: the mock CA (probe/ca.rs), OpenSSL for parsing the files, the answer alphabet of vlib/e1.py. Key bytes are not owned.", ref="4/C03"),
